@@ -498,6 +498,11 @@ pub fn scenario(seed: u64, _p: &Params, rep: &mut Report) {
 pub fn run(p: &Params) -> Report {
     let mut rep = Report::new("C07");
     if let Some(r) = &p.replay {
+        if super::sys::replay(r, &mut rep) {
+            return rep;
+        }
+    }
+    if let Some(r) = &p.replay {
         let seed: u64 = r["replay"]["scenario_seed"].as_str().unwrap().parse().unwrap();
         scenario(seed, p, &mut rep);
         return rep;
@@ -507,5 +512,8 @@ pub fn run(p: &Params) -> Report {
         let seed = p.shard_seed(i);
         crate::util::guarded(&mut rep, seed, |rep| scenario(seed, p, rep));
     }
+    // real concurrency: the live table of an unmodified Discv5 walked under its lock while user
+    // threads call the public API and the node talks to a simulated network (real time)
+    super::sys::run_concurrent(p, super::sys::Focus::C07, 0x5C07_0000, 64, 3_200, &mut rep);
     rep
 }
